@@ -23,12 +23,21 @@ EXPLANATION = (
     '/ block view, plane-rotation index, raw-pointer subscript and 3-row / 3-column window handed to a Householder kernel is '
     'inside its array; every call establishes the callee\'s precondition; every postcondition (returned deflation index, '
     'start index of the Francis step) holds at every exit; the assumed extents are the ones the classes resize their arrays to. '
-    'Does NOT decide NaN-freedom in general, the inside of the pointer-walking kernels (Householder appliers incl. the SIMD one, '
-    'UpperHessenbergQR / TridiagQR / DoubleShiftQR::apply_*, BKLDLT internals), or undefined behaviour outside these clauses.')
+    '(D11) Bunch-Kaufman factorization on packed lower-triangular storage: every pointer is modelled as (column, row), every '
+    'packed access, view and copied range is inside its column, the layout and the accessors are what the model assumes; (D12) the '
+    'pointer-walking kernels of the QR helpers (UpperHessenbergQR compute / RQ / Y Q, TridiagQR::compute, DoubleShiftQR compute / '
+    'reflector construction / reflector application to blocks): pointers into column-major storage own a row and a column zone '
+    'variable, arithmetic is decomposed by the stride, every dereference, subscript and filled range is inside the array, and the '
+    'callers establish the block preconditions of the appliers. '
+    'Does NOT decide NaN-freedom in general, the inside of the Householder appliers of the Schur class (incl. the SIMD one), '
+    'DoubleShiftQR::apply_PX(vector) whose third-row read depends on the stored reflector sizes, BKLDLT::solve_inplace (depends on '
+    'the sign pattern of the stored permutation), or undefined behaviour outside these clauses.')
 ASSUMPTIONS = ['class invariants = negation of the constructor guards (C12 shows they equal the documented ranges)',
                'elements of an index vector returned by the ordering primitive lie in [0, length) (C18: it is a permutation)',
                'the small decompositions of the ncv x ncv matrix H return ncv eigenvalues and ncv x ncv eigenvectors',
-               'the number of converged flags is between 0 and nev']
+               'the number of converged flags is between 0 and nev',
+               'the double-shift QR class is used with n >= 2 (the solver bases construct it with ncv >= 3)',
+               'a matrix handed to UpperHessenbergQR::apply_YQ has n columns (its callers pass ncv x ncv matrices to a decomposition of size ncv)']
 
 N_, NEV, NCV = ('f', 'm_n'), ('f', 'm_nev'), ('f', 'm_ncv')
 
@@ -797,6 +806,44 @@ def packed_storage_contracts(ctx, rule='packed-storage-index-contracts'):
                   if not probs else '; '.join(probs))
 
 
+
+# D12: pointer-walking kernels of the QR helpers (dense column-major pointer model, rules/densemodel.py)
+def pointer_kernel_contracts(ctx, rule='pointer-kernel-contracts'):
+    from . import contracts
+    from .densemodel import Dense
+    HQ = contracts.Spec('Spectra::UpperHessenbergQR', [], {'m_mat_R': ['m_n', 'm_n'], 'm_rot_cos': ['m_n - 1'], 'm_rot_sin': ['m_n - 1']},
+                        {'compute': {}, 'matrix_QtHQ': {}, 'apply_YQ': {}})
+    HQ.symbolic_params = ('Y',)
+    D1 = Dense({'m_mat_R': dict(rows='m_n', cols='m_n'), 'dest': dict(rows='m_n', cols='m_n'), 'Y': dict(rows='rows_Y', cols='m_n', stride='rows_Y')},
+               {'compute': {'Rii': 'm_mat_R', 'ptr': 'm_mat_R'}, 'matrix_QtHQ': {'Yi': 'dest', 'Yi1': 'dest'}, 'apply_YQ': {'Y_col_i': 'Y', 'Y_col_i1': 'Y'}})
+    TQ = contracts.Spec('Spectra::TridiagQR', [], {'m_rot_cos': ['m_n - 1'], 'm_rot_sin': ['m_n - 1'], 'm_T_diag': ['m_n'], 'm_T_subd': ['m_n - 1'],
+                                                    'm_R_diag': ['m_n'], 'm_R_supd': ['m_n - 1'], 'm_R_supd2': ['m_n - 2']},
+                        {'compute': {}, 'matrix_QtHQ': {}})
+    D2 = Dense({'m_rot_cos': dict(rows='m_n - 1'), 'm_rot_sin': dict(rows='m_n - 1')}, {'compute': {'c': 'm_rot_cos', 's': 'm_rot_sin'}})
+    DS = contracts.Spec('Spectra::DoubleShiftQR', ['2 <= m_n'], {'m_mat_H': ['m_n', 'm_n'], 'm_ref_u': [3, 'm_n'], 'm_ref_nr': ['m_n']}, {
+        'compute': {},
+        'update_block': {'pre': ['0 <= il', 'il <= iu', 'iu <= m_n - 1'],
+                         'callsite_assumed': {'compute': 'blocks are [z_i, z_{i+1} - 1] of the increasing deflation points 0 = z_0 < ... = n (rule double-shift-block-within-matrix)'}},
+        'compute_reflector/4': {'pre': ['0 <= ind', 'ind <= m_n - 1']},
+        'compute_reflector/2': {'pre': ['0 <= ind', 'ind <= m_n - 1']},
+        'apply_PX/3': {'pre': ['2 <= rows_X', '0 <= u_ind', 'u_ind <= m_n - 1']},
+        'apply_PX/2': {'pre': ['0 <= u_ind', 'u_ind <= m_n - 1']},
+        'apply_XP': {'pre': ['2 <= cols_X', '0 <= u_ind', 'u_ind <= m_n - 1']},
+        'apply_YQ': {},
+        'apply_QtY': {},
+    }, windows={'compute_reflector/2': dict(params=['x', 'ind'], ptr='x', rows=3, cols=1)})
+    DS.symbolic_params = ('X',)
+    D3 = Dense({'m_mat_H': dict(rows='m_n', cols='m_n'), 'm_ref_u': dict(rows=3, cols='m_n'), 'm_ref_nr': dict(rows='m_n'),
+                'X': dict(rows='rows_X', cols='cols_X', stride='stride'), 'XW': dict(rows=3)},
+               {'compute': {'Hii': 'm_mat_H'}, 'compute_reflector': {'u': 'm_ref_u', 'nr': 'm_ref_nr', 'x': 'XW'}, 'apply_PX': {'xptr': 'X'},
+                'apply_XP': {'X0': 'X', 'X1': 'X', 'X2': 'X'}})
+    tot = 0
+    for spec, dm, floor in ((HQ, D1, 25), (TQ, D2, 20), (DS, D3, 60)):
+        tot += contracts.verify_dense(ctx, spec, dm, _check_sites, rule, min_sites=floor)
+        _extents_established(ctx, spec, rule)
+    return tot
+
+
 def _show_lin(fn, lin):
     v, c = lin
     if v == 'Z':
@@ -1094,6 +1141,7 @@ def run(ctx):
     _run(ctx)
     dense_kernel_contracts(ctx)
     packed_storage_contracts(ctx)
+    pointer_kernel_contracts(ctx)
 
 
 def _run(ctx):
